@@ -10,10 +10,15 @@
   Proof: the zipper invariant of the verify-soundness proof, generalised to every scan mode
   (Lemmas/Stream*.lean).
 
-  ⇐ (verify accepts ⇒ every protocol-following traversal succeeds without error) is the navigation
-  refinement read for "no error / enter, leave, raw return true" — see the end of this file.
+  ⇐ (`c08_verify_implies_traversal_ok`): verify accepts ⇒ the bytes are `encode v` of a well-formed
+  document (`verify_iff`), and then EVERY protocol-following call sequence — any mix of entering,
+  skipping, field lookups, early leaves and raw extraction, of any length — runs with the error flag NONE
+  after every call, every go_into_* / leave_* returning true, get_raw on a container returning true, and
+  when the root has been left the parser is `RootClosed` (so ⇒ applies to the same run). This is the
+  navigation refinement read for "no error / successful calls" (Lemmas/NavCor.lean).
 -/
 import Binson.Lemmas.Stream
+import Binson.Lemmas.NavCor
 import Binson.Model.Transcribe
 namespace Binson
 
@@ -36,6 +41,25 @@ theorem c08_rejected_bytes_never_pass (g : Parser) (ha : Alloc g) (hmd : g.maxDe
   intro herr
   have := stream_sound g ha hmd buf hsz root hi ops hnav herr hclosed
   rw [hv] at this; cases this
+
+
+/-- ⇐: on bytes verify accepts, every protocol-following traversal succeeds -/
+theorem c08_verify_implies_traversal_ok (g : Parser) (ha : Alloc g) (hmd : g.maxDepth ≤ 255) (root : Root) (buf : Array UInt8)
+    (hsz : buf.size < 2 ^ 63) (hi : (init g buf (rootNum root)).2 = true)
+    (hv : (verify (init g buf (rootNum root)).1).2.1 = true) :
+    ∃ v, buf = (encode v).toArray ∧ wfDoc root g.maxDepth v = true ∧
+      (verify (init g buf (rootNum root)).1).1 = (init g buf (rootNum root)).1 ∧
+      ∀ ops : List COp,
+        NavOk (init g buf (rootNum root)).1 (Cursor.start root v) ops ∧
+        ∀ p c, (p, c) = navRun ((init g buf (rootNum root)).1, Cursor.start root v) ops →
+          p.err = .none ∧ p.fault = false ∧ p.oof = false ∧
+          (c.done = true → RootClosed p) ∧
+          ∀ op, c.allowed op = true →
+            (machNav p op).1.err = .none ∧
+            ((op = .enterObj ∨ op = .enterArr ∨ op = .leaveObj ∨ op = .leaveArr) → (machNav p op).2.1 = true) ∧
+            (op = .raw → ∀ n, c.cur = some n → (n.item.ty = .object ∨ n.item.ty = .array) →
+              (machNav p op).2.1 = true ∧ (machNav p op).2.2 = some ⟨n.item.start, n.item.len⟩) :=
+  protocol_run_ok g ha hmd root buf hsz hi hv
 
 /-- non-vacuity: `{"a":true}` entered, one `next`, left: root closed, no error -/
 example : let p := run (init (garbageParser 2) #[0x40, 0x14, 0x01, 0x61, 0x44, 0x41] 1).1 [.goIntoObject, .next, .leaveObject]
